@@ -7,3 +7,4 @@ import Generated.GoStyle
 import Generated.GoObject
 import Generated.GoConfig
 import Generated.GoLink
+import Generated.GoCollection
